@@ -20,12 +20,13 @@ import (
 )
 
 type PropSpec struct {
-	Units   []string `json:"units"`   // extra unit keys (function keys) beyond those carrying tagged clauses
-	Lemmas  []string `json:"lemmas"`  // lemma names
-	Kinds   []string `json:"kinds"`   // obligation kinds counted for untagged obligations (default: all)
-	Sweep   []string `json:"sweep"`   // package path suffixes whose functions are swept for safety/lock obligations without contracts
-	Exclude []string `json:"exclude"` // unit keys excluded from the sweep
-	Note    string   `json:"note"`
+	Units    []string `json:"units"`     // extra unit keys (function keys) beyond those carrying tagged clauses
+	Lemmas   []string `json:"lemmas"`    // lemma names
+	Kinds    []string `json:"kinds"`     // obligation kinds counted for untagged obligations (default: all)
+	Sweep    []string `json:"sweep"`     // package path suffixes whose functions are swept for safety/lock obligations without contracts
+	Exclude  []string `json:"exclude"`   // unit keys excluded from the sweep
+	AlsoTags []string `json:"also_tags"` // obligations tagged with these properties count for this one too
+	Note     string   `json:"note"`
 }
 
 type KnownFinding struct {
@@ -146,6 +147,11 @@ func cmdCheck(argv []string) int {
 		}
 		if clauseTags(fc)[*prop] {
 			unitKeys[key] = true
+		}
+		for _, at := range ps.AlsoTags {
+			if clauseTags(fc)[at] {
+				unitKeys[key] = true
+			}
 		}
 		// implementations of a type contract that carries clauses of this property
 		for _, im := range fc.Implements {
@@ -333,7 +339,15 @@ func cmdCheck(argv []string) int {
 	for _, e := range encs {
 		for _, o := range e.obligs {
 			if len(o.Tags) > 0 && !hasTag(o.Tags, *prop) {
-				continue
+				also := false
+				for _, at := range ps.AlsoTags {
+					if hasTag(o.Tags, at) {
+						also = true
+					}
+				}
+				if !also {
+					continue
+				}
 			}
 			if len(o.Tags) == 0 && len(ps.Kinds) > 0 {
 				ok := false
